@@ -21,7 +21,8 @@ func synthSQL(r *rng, idx int, withComments bool) (*modSpec, *sqlIntent) {
 	b.WriteString("type Mark uint8\n\nconst (\n\tM1 Mark = 1\n\tM5 Mark = 5\n)\n\n")
 	b.WriteString("type Date time.Time\ntype Moment time.Time\n\n")
 	b.WriteString("type Point struct {\n\tX int\n\tY int16\n\tC Color\n}\n\n")
-	b.WriteString("type Payload struct {\n\tName string `json:\"name\"`\n\tTags []string\n\tInner Point\n\tOpt map[string]int\n}\n\n")
+	b.WriteString("type MapSI map[string]int\n\n")
+	b.WriteString("type Payload struct {\n\tName string `json:\"name\"`\n\tTags Strings\n\tInner Point\n\tOpt MapSI\n}\n\n")
 	b.WriteString("type Shape interface{ isShape() }\ntype Circle struct{ R float64 }\ntype Square struct{ Side int }\nfunc (Circle) isShape() {}\nfunc (Square) isShape() {}\n\n")
 	b.WriteString("type Strings []string\ntype Triple [3]int\ntype Flags [2]bool\ntype Colors []Color\ntype Payloads []Payload\ntype Dict map[string]Payload\n\n")
 	b.WriteString("type ShapeBox struct{ S Shape }\n\n")
@@ -46,7 +47,7 @@ func synthSQL(r *rng, idx int, withComments bool) (*modSpec, *sqlIntent) {
 		func(c string) string { return c + " time.Time" },
 		func(c string) string { return c + " Date" },
 		func(c string) string { return c + " Moment" },
-		func(c string) string { return c + " []byte" },
+		func(c string) string { return c + " Strings" },
 		func(c string) string { return c + " Strings" },
 		func(c string) string { return c + " Triple" },
 		func(c string) string { return c + " Flags" },
@@ -72,6 +73,8 @@ func synthSQL(r *rng, idx int, withComments bool) (*modSpec, *sqlIntent) {
 		isLink := ti > 0 && r.chance(1, 4)
 		if !isLink {
 			fmt.Fprintf(&b, "\t%s Id%s\n", pick(r, []string{"Id", "Id", "ID", "Id"}), t)
+		} else {
+			fmt.Fprintf(&b, "\tId int // a plain column of the link table\n")
 		}
 		// foreign keys to other tables
 		for _, o := range names {
